@@ -110,7 +110,13 @@ namespace pika::threads::detail {
     {
         PIKA_ASSERT(num_thread < suspend_conds_.size());
 
+#if defined(PIKA_VERIF)
+        PIKA_VERIF_POINT(1901, this, num_thread, 0);
+#endif
         states_[num_thread].store(runtime_state::sleeping);
+#if defined(PIKA_VERIF)
+        PIKA_VERIF_POINT(1902, this, num_thread, 0);
+#endif
         std::unique_lock<pu_mutex_type> l(suspend_mtxs_[num_thread]);
         suspend_conds_[num_thread].wait(l);
 
@@ -119,6 +125,9 @@ namespace pika::threads::detail {
         // which case the state is left untouched.
         pika::runtime_state expected = runtime_state::sleeping;
         states_[num_thread].compare_exchange_strong(expected, runtime_state::running);
+#if defined(PIKA_VERIF)
+        PIKA_VERIF_POINT(1903, this, num_thread, static_cast<std::uint64_t>(expected));
+#endif
 
         PIKA_ASSERT(expected == runtime_state::sleeping || expected == runtime_state::stopping ||
             expected == runtime_state::terminating);
@@ -133,6 +142,9 @@ namespace pika::threads::detail {
         else
         {
             PIKA_ASSERT(num_thread < suspend_conds_.size());
+#if defined(PIKA_VERIF)
+            PIKA_VERIF_POINT(1904, this, num_thread, 0);
+#endif
             suspend_conds_[num_thread].notify_one();
         }
     }
@@ -167,6 +179,10 @@ namespace pika::threads::detail {
                                 if (states_[num_thread_local] <= max_allowed_state)
                                 {
                                     num_thread = num_thread_local;
+#if defined(PIKA_VERIF)
+                                    PIKA_VERIF_POINT(1905, this, num_thread,
+                                        static_cast<std::uint64_t>(max_allowed_state));
+#endif
                                     return false;
                                 }
 
@@ -216,6 +232,10 @@ namespace pika::threads::detail {
 
                 if (l.owns_lock() && states_[num_thread_local] <= runtime_state::suspended)
                 {
+#if defined(PIKA_VERIF)
+                    PIKA_VERIF_POINT(1905, this, num_thread_local,
+                        static_cast<std::uint64_t>(runtime_state::suspended));
+#endif
                     return num_thread_local;
                 }
             }
